@@ -64,7 +64,9 @@ func (c *c20Conn) note(t time.Time) time.Time {
 	}
 	d := time.Until(t)
 	c.mu.Lock()
-	c.log = append(c.log, int(math.Round(float64(d)/float64(time.Millisecond))))
+	if len(c.log) < 5000 { // a handler spinning on a dead connection must not fill the memory
+		c.log = append(c.log, int(math.Round(float64(d)/float64(time.Millisecond))))
+	}
 	c.mu.Unlock()
 	return time.Now().Add(c20Compress(d))
 }
